@@ -16,7 +16,7 @@ document — $col arithmetic, reference chains, reference-list attributes, looku
 with CONTAINS and order_by, summary $group, PREVIOUS / NEXT / RANK, cross-table chains.  Volatile or
 side-effecting functions (NOW, TODAY, RAND*, REQUEST, PEEK, lookupOrAddDerived) are never generated;
 trigger-formula data columns are data (loaded, not compared).
-Bounded: seeded random histories over 8 seed documents; never a proof.  The dependency graph itself
+Bounded: seeded random histories over 9 seed documents; never a proof.  The dependency graph itself
 (depend.Graph + dynamic edge recording in Engine._use_node) is not separately verified."""
 import os
 import random
@@ -111,6 +111,11 @@ def formulas_for(g, e, tabs, t):
     a, b = pick(nums), pick(names)
     out += ["$%s" % b, "($%s or 0) + 1" % a, "($%s or 0) * 2 + len(str($%s))" % (a, b),
             "$%s if $%s else None" % (b, a), "[$%s, $%s]" % (a, b), "$%s == $%s" % (a, b)]
+  fcols_here = [c[0] for c in cols if c[2]]
+  if fcols_here and names:
+    fc = pick(fcols_here)
+    out += ["[$%s, $%s]" % (fc, pick(names)), "($%s or 0) if isinstance($%s, (int, float)) else $%s" % (fc, fc, pick(names)),
+            "str($%s) + str($%s)" % (fc, pick(names))]          # same-row chain through a formula cell
   for (rc, target) in refs:
     if target in tabs:
       tc = colof(target)
@@ -201,15 +206,38 @@ def creates_cycle(tabs, col_id, formula):
 # ReplaceTableData, direct metadata edits, summary-table creation / removal) are NOT in the mix:
 # with them almost every history fails and root causes can no longer be told apart.  The defects
 # found there are pinned by the fixed WITNESSES below instead.
-MIX = {"update": 16, "bulk_update": 8, "add": 10, "bulk_add": 6, "remove": 8, "bulk_remove": 4,
+MIX = {"update": 16, "bulk_update": 10, "add": 10, "bulk_add": 6, "remove": 8, "bulk_remove": 4,
        "add_temp": 3, "upsert": 2, "rename_col": 3, "rename_table": 1, "add_col": 3, "add_table": 1,
-       "label": 1, "invalid": 1, "formula": 26, "multi": 8}
-MULTI_KINDS = ["add", "update", "remove", "bulk_update", "formula", "formula", "rename_col", "add_col",
-               "invalid"]
+       "label": 1, "invalid": 1, "formula": 26, "multi": 14}
+MULTI_KINDS = ["add", "update", "update", "update", "remove", "bulk_update", "bulk_update", "formula",
+               "formula", "rename_col", "add_col", "invalid"]
+
+
+# Seed document with same-row chains THROUGH lookup-valued columns: A reads B, B is a lookup, and A's
+# node sorts before B's, in a cross-table and in a self-lookup flavour; A also has inputs of its own
+# (a data cell, a reference), so that it can be dirty for a reason that does not involve B.
+_col = gen._col
+gen.SEEDS["c05_chain"] = [
+  [["AddTable", "Rates", [_col("k", "Text"), _col("amount", "Int")]],
+   ["AddTable", "People", [
+     _col("k", "Text"), _col("x", "Int"), _col("fav", "Ref:Rates"),
+     _col("B", "Any", "len(Rates.lookupRecords(k=$k))"),
+     _col("A", "Any", "$B + ($x or 0)"),
+     _col("A2", "Any", "$B * 1000 + len($fav.k or '')"),
+     _col("Bsum", "Any", "sum(r.amount or 0 for r in Rates.lookupRecords(k=$k, order_by='amount'))"),
+     _col("A3", "Any", "[$Bsum, $x, $fav.amount]")]],
+   ["AddTable", "Own", [_col("k", "Text"), _col("v", "Int"),
+                        _col("cnt", "Any", "len(Own.lookupRecords(k=$k))"),
+                        _col("acc", "Any", "$cnt * 100 + ($v or 0)")]]],
+  [["BulkAddRecord", "Rates", [None, None, None], {"k": ["a", "b", "c"], "amount": [10, 20, 30]}],
+   ["BulkAddRecord", "People", [None, None], {"k": ["a", "b"], "x": [100, 200], "fav": [2, 3]}],
+   ["BulkAddRecord", "Own", [None, None, None], {"k": ["a", "b", "a"], "v": [1, 2, 3]}]],
+]
 
 
 class C05Monitor(explore.Monitor):
-  seeds = ("basic", "refs", "lookup", "summary", "twoway", "twoway_list", "prevnext", "choices")
+  seeds = ("basic", "refs", "lookup", "summary", "twoway", "twoway_list", "prevnext", "choices",
+           "c05_chain")
   length = 8
 
   def formula_action(self, e, g):
@@ -267,8 +295,12 @@ class C05Monitor(explore.Monitor):
       sch = e.schema[t].columns.get(c) if t in e.schema else None
       cells.append({"table": t, "col": c, "row": r, "live": repr(x), "scratch": repr(y),
                     "formula": sch.formula if sch else None})
+    formulas = {}
+    for t in eng.user_tables(e):
+      for (cid, ctype, is_formula, formula) in eng.schema_columns(e, t):
+        if formula: formulas["%s.%s" % (t, cid)] = formula
     return [("C05.equals_scratch", {"cells": cells, "rolled_back": exc is not None,
-                                    "diagnosis": diagnose(e)})]
+                                    "diagnosis": diagnose(e), "formulas": formulas})]
 
   def classify(self, clause, detail, bundle, history):
     return classify(detail, bundle, history)
@@ -355,6 +387,43 @@ def action_kinds(bundle):
   return sorted(set(out))
 
 
+LOOKUP_ARGS = re.compile(r"(?:lookupRecords|lookupOne|PREVIOUS|NEXT|RANK)\s*\(([^()]*(?:\([^()]*\)[^()]*)*)\)")
+
+def indexed_column_behind_lookup(cell, cells, formulas):
+  """Root-cause test for one differing cell (static, by column name): its column X is used as a
+  lookup key / order_by / group_by by some formula of the document (so a '#lookup' helper reads X
+  at the start of every pass) AND X's own formula reaches, through same-document column names,
+  a column whose formula is itself a lookup (whose helper may only find out later in the pass that
+  X's input changed); or the cell is such a lookup over a differing X."""
+  by_name = {}
+  for key, f in formulas.items():
+    by_name.setdefault(key.split(".", 1)[1], []).append(f)
+  names = set(by_name)
+  words = lambda f: set(w for w in re.findall(r"[A-Za-z_][A-Za-z_0-9]*", f or "") if w in names)
+  indexed = set()
+  for fs in by_name.values():
+    for f in fs:
+      for m in LOOKUP_ARGS.finditer(f):
+        indexed |= words(m.group(1).split("$")[0] if False else m.group(1))
+  def reaches_lookup(x):
+    seen, todo = set(), [x]
+    while todo:
+      n = todo.pop()
+      if n in seen: continue
+      seen.add(n)
+      for f in by_name.get(n, ()):
+        if n != x and ("lookupRecords" in f or "lookupOne" in f): return True
+        todo.extend(words(f))
+    return False
+  def is_x(col):
+    return col in indexed and reaches_lookup(col)
+  if is_x(cell["col"]):
+    return True
+  others = set(c["col"] for c in cells if is_x(c["col"]))
+  f = cell["formula"] or ""
+  return any(m and (words(m.group(1)) & others) for m in LOOKUP_ARGS.finditer(f))
+
+
 def classify(detail, bundle, history=()):
   """Root-cause class of a (shrunk) violation.  Decision list, most specific evidence first."""
   if "error" in detail:
@@ -379,6 +448,8 @@ def classify(detail, bundle, history=()):
   if lookup_shape and unreadable and all(names_a(unreadable, c) for c in cells):
     kinds = sorted(set(x["why"] for c in cells for x in names_a(unreadable, c)))
     return "lookup-helper-stale:key-or-sort-column-" + "+".join(kinds)
+  if cells and all(indexed_column_behind_lookup(c, cells, detail.get("formulas") or {}) for c in cells):
+    return "computed-once-per-pass:indexed-formula-column-behind-another-lookup"
   shapes2 = sorted(set(("summary:" if "_summary_" in c["table"] else "") + formula_shape(c["formula"])
                        for c in cells))
   kinds = sorted(set("%s->%s" % (value_kind(c["live"]), value_kind(c["scratch"])) for c in cells))
@@ -431,7 +502,7 @@ def main():
   rep = common.Report("C05", "exploration")
   rep.assumptions += [
     common.SHIM_ASSUMPTION,
-    "bounded: seeded random histories over 8 seed documents; not a proof",
+    "bounded: seeded random histories over 9 seed documents; not a proof",
     "the specification function hands the monitored engine's data cells to the fresh engine as "
     "objects (no encode / marshal round trip: that is C07)",
     "volatile / side-effecting functions are never generated; trigger-formula data columns are "
